@@ -547,6 +547,15 @@ def c09_cases(rng, tier):
                               stack=[7], sols=RICH_SOLS, limit=100000))
             cases.append(case([P(cnt), P(up), op("REP"), op("REPC"), P(b), op("COM"), op("POP"), op("REPC"), op("REPC"), op("ADD"), P(1), op("ALOC"), op("STO"),
                                op("COME"), op("POP"), op("REPE")], stack=[7], sols=RICH_SOLS, limit=100000))
+    # nested parent loops around a Compute whose children close the inherited inner loop and then use the outer one
+    for b in (1, 2, 3):
+        for (oc, ou), (ic, iu) in (((2, 1), (1, 1)), ((1, 0), (2, 0)), ((2, 1), (2, 1))):
+            body = [op("REPC"), P(1), op("ALOC"), op("STO"), op("REPE"), op("REPC"), P(1), op("ALOC"), op("STO"), op("COME")]
+            cases.append(case([P(oc), P(ou), op("REP"), P(ic), P(iu), op("REP"), P(b), op("COM")] + body + [op("REPE"), op("REPE")],
+                              stack=[7], sols=RICH_SOLS, limit=1000000))
+            body2 = [op("POP"), op("REPE"), op("REPE"), op("REPC"), P(1), op("ALOC"), op("STO"), op("COME")]
+            cases.append(case([P(oc), P(ou), op("REP"), P(ic), P(iu), op("REP"), P(b), op("COM")] + body2 + [op("REPE"), op("REPE")],
+                              stack=[7], sols=RICH_SOLS, limit=1000000))
     # counts that would be small if narrowed, under a gas limit that only the narrowed loop could meet
     for n in (258, 65538, (1 << 32) + 2):
         for up in (0, 1):
@@ -636,7 +645,26 @@ def c10_cases(rng, tier):
         for body in (by_jump, by_halt, counted):
             for cnt, up in ((1, 1), (2, 0)):
                 cases.append(case([P(cnt), P(up), op("REP"), P(b), op("COM")] + body + [op("REPE")], stack=[7], sols=RICH_SOLS, limit=U64_MAX))
+    # nested parent loops around a Compute whose children close the inherited inner loop and then use the outer one
+    for b in (1, 2, 3):
+        for (oc, ou), (ic, iu) in (((2, 1), (1, 1)), ((1, 0), (2, 0)), ((2, 1), (2, 1))):
+            body = [op("REPC"), P(1), op("ALOC"), op("STO"), op("REPE"), op("REPC"), P(1), op("ALOC"), op("STO"), op("COME")]
+            cases.append(case([P(oc), P(ou), op("REP"), P(ic), P(iu), op("REP"), P(b), op("COM")] + body + [op("REPE"), op("REPE")],
+                              stack=[7], sols=RICH_SOLS, limit=1000000))
+            body2 = [op("POP"), op("REPE"), op("REPE"), op("REPC"), P(1), op("ALOC"), op("STO"), op("COME")]
+            cases.append(case([P(oc), P(ou), op("REP"), P(ic), P(iu), op("REP"), P(b), op("COM")] + body2 + [op("REPE"), op("REPE")],
+                              stack=[7], sols=RICH_SOLS, limit=1000000))
     cases += pex_race_cases()
+    # parent memory x children memory around the limit: each side alone within it, jointly at / above it, children adding nothing
+    for pm in (0, 1, 240, 241, MEM_LIMIT - 2, MEM_LIMIT - 1, MEM_LIMIT):
+        for b in (1, 2, 3):
+            for ca in (0, 1, 2, 5000, 5120):
+                cases.append(case([P(b), op("COM"), P(ca), op("ALOC"), op("POP"), op("COME")], sols=RICH_SOLS, mem=[1] * pm))
+            # children that only read the parent's memory / use the stack
+            cases.append(case([P(b), op("COM"), P(0), op("LODP"), op("POP"), op("COME")], sols=RICH_SOLS, mem=[1] * pm))
+    # parent stack at the limit: the child needs one more word for its index
+    for sl in (STACK_LIMIT - 2, STACK_LIMIT - 1, STACK_LIMIT):
+        cases.append(case([op("COM"), op("POP"), op("COME")], stack=[1] * (sl - 1) + [2], sols=RICH_SOLS))
     # larger breadths
     for b in (50, 1000, 4097):
         cases.append(case([P(b), op("COM"), P(1), op("ALOC"), op("STO"), op("COME")], sols=RICH_SOLS, limit=U64_MAX, maxb=5000))
@@ -688,6 +716,16 @@ def c11_cases(rng, tier):
             for key, n in (([1], 2), ([0], 1), ([1, 2], 3), ([I64_MAX], 2), ([9], 1)):
                 prog = args(s1, key, n, 0) + [op(s1)] + args(s2, key, n, 20) + [op(s2)]
                 c = case(prog, stack=[33], mem=[-5] * 40, sols=RICH_SOLS, entries=ents, index=0)
+                cases.append(c)
+                oracles.append(as_oracle(c, "o_state"))
+    # the same view asked twice for the same first key with the same / a smaller / a larger count (each answer is scripted
+    # per count: an implementation that serves the second read from the first one shows), incl. keys whose answers have more
+    # or fewer values than requested
+    for s1 in ("KRNG", "PKRNG", "KREX", "PKREX"):
+        for key in ([1], [1, 2], [8], [7], [0]):
+            for n1, n2 in ((3, 2), (2, 2), (2, 3), (3, 1), (1, 3), (2, 0)):
+                prog = args(s1, key, n1, 0) + [op(s1)] + args(s1, key, n2, 20) + [op(s1)]
+                c = case(prog, stack=[33], mem=[-5] * 44, sols=RICH_SOLS, entries=ents, index=0)
                 cases.append(c)
                 oracles.append(as_oracle(c, "o_state"))
     # the other solution's contract (index 1)
